@@ -1,0 +1,12 @@
+//go:build verif
+
+package funcGen
+
+import "github.com/hneemann/parser2"
+
+// VerifOptimizer returns the optimizer the generator hands to its parser. A harness wraps it
+// (SetOptimizer before the first Generate) to see which constant objects constant folding creates;
+// the optimizer itself, including its scratch stack, stays the one funcGen.New installed.
+func VerifOptimizer[V any](g *FunctionGenerator[V]) parser2.Optimizer {
+	return g.optimizer
+}
